@@ -231,7 +231,9 @@ def classify_titan(text: str):
     if odd or any(k not in ("size", "mime", "token") for k in d):
         return "undecided", "titan-odd-params", None
     for k in ("mime", "token"):
-        if k in d and not re.fullmatch(rf"(?:[{_unres}/+]|{_pct})*", d[k]):
+        # ('=' inside a token - base64 padding, "a=b" - is a legal path character and belongs to the value: the
+        # parameter name ends at the FIRST '=')
+        if k in d and not re.fullmatch(rf"(?:[{_unres}/+{'=' if k == 'token' else ''}]|{_pct})*", d[k]):
             return "undecided", "titan-param-outside-grammar", None
     if "mime" in d and d["mime"] == "":
         return "undecided", "titan-empty-mime", None
